@@ -1,0 +1,16 @@
+//go:build verif
+
+package types
+
+// VerifYield, if set, is called at the named points of the transaction
+// lifecycle (timer expiry, manager lock acquisition, confirm / cancel / set
+// entry). A harness scheduler parks the calling goroutine there to enumerate
+// interleavings. Verification harness only.
+var VerifYield func(point string)
+
+// VerifYieldPoint marks a named scheduling point.
+func VerifYieldPoint(point string) {
+	if f := VerifYield; f != nil {
+		f(point)
+	}
+}
